@@ -8,7 +8,7 @@ LEVEL = "exploration"
 RULE = ("Bounded-exhaustive: every sequence of length 0..N over link kinds {await coroutine, await types.coroutine "
         "generator, __await__ returning a coroutine wrapper, __await__ running a delegating generator, asend(None), asend(<an async generator object>), __anext__, "
         "async for, athrow, aclose, `async with` whose __aexit__ awaits the rest (the owning frame is suspended while leaving the block)} x terminal {trap, plain-iterator leaf, falsy future-like leaf that is its own iterator, future-like leaf that speaks the generator protocol (send/throw/close) without being a generator} x outer kind {coroutine, generator-based "
-        "coroutine} x {links suspend first themselves, or not}; plus pure yield-from generator chains, plus ten deep chains (60-150 links, plain and mixed); every suspension "
+        "coroutine} x {links suspend first themselves, or not}; plus pure yield-from generator chains, plus ten chains through a frame whose context analysis fails (the frames must be complete all the same), plus ten deep chains (60-150 links, plain and mixed); every suspension "
         "point k of each (chain rebuilt and advanced k steps), plus the exhausted state (the root and every coroutine / generator / async generator the chain was made of: no frames once finished or closed, only its own frame when parked at its own yield). Oracle: frames and line numbers of "
         "the traceback of an exception thrown into the root right after extraction. evaluations = (chain, position) "
         "observations; distinct_nontrivial = distinct chain specs with at least one link.")
@@ -67,7 +67,12 @@ def observe(spec, k):
         got = [(f.pyframe, f.lineno) for f in st.frames]
         if w:
             problems.append("warning %s" % str(w[0].message)[:150])
-        if st.error is not None or st2.error is not None:
+        if "aexitd" in kinds:
+            # the context analysis of the frame that owns the ExiterD block cannot tell whose exit is running and reports
+            # that; without contexts there is nothing to report
+            if st2.error is not None:
+                problems.append("error %r with with_contexts=False" % (st2.error,))
+        elif st.error is not None or st2.error is not None:
             problems.append("error %r / %r" % (st.error, st2.error))
         if st.root is not root:
             problems.append("root is not the target")
@@ -157,7 +162,7 @@ def run(ctx):
     # finalise async generators of earlier cases at any moment) out of that window
     gc.disable()
     import itertools
-    for spec in itertools.chain(cs.long_specs(), cs.specs(N)):
+    for spec in itertools.chain(cs.long_specs(), cs.failing_analysis_specs(), cs.specs(N)):
         idx += 1
         if not ctx.mine(idx):
             continue
